@@ -99,9 +99,31 @@ Definition truthy (v : val) : outcome bool :=
   | _ => OutOfModel
   end.
 
+Definition path_eqb (a b : path) : bool :=
+  match a, b with
+  | PRoot s, PRoot t | PSupply s, PSupply t => String.eqb s t
+  | _, _ => false
+  end.
+Fixpoint paths_eqb (a b : list path) : bool :=
+  match a, b with
+  | [], [] => true
+  | x :: a', y :: b' => path_eqb x y && paths_eqb a' b'
+  | _, _ => false
+  end.
+Fixpoint tbl_lookup (ps : list path) (t : list (list path * outcome (option mval))) : outcome (option mval) :=
+  match t with
+  | [] => OutOfModel
+  | (qs, r) :: t' => if paths_eqb ps qs then r else tbl_lookup ps t'
+  end.
+
 Section Eval.
-Variable mb : list fres -> outcome (option mval).    (* the nested multi_bcat *)
+(* what the nested multi_bcat returns for each argument list occurring in the program (built by [mk_tbl] below from
+   the translated multi_bcat and the files: a first-order table instead of a function, so that proofs can name the
+   entries); an argument list that is not in the table is outside the model *)
+Variable tbl : list (list path * outcome (option mval)).
 Variable fs : path -> fres.                          (* the files below /sys/class/power_supply *)
+
+Definition mb (ps : list path) : outcome (option mval) := tbl_lookup ps tbl.
 
 Definition of_mval (m : option mval) : val :=
   match m with None => VNone | Some (MI z) => VInt z | Some (MB b) => VStr b end.
@@ -115,7 +137,7 @@ Fixpoint eval (en : env) (e : expr) {struct e} : outcome val :=
   | EStr b => Val (VStr b)
   | EBool b => Val (VBool b)
   | ETime u => Val (VTime u)
-  | EMulti ps => do m <- mb (map fs ps); Val (of_mval m)
+  | EMulti ps => do m <- mb ps; Val (of_mval m)
   | ECat p fb => match fs p with FC b => Val (VStr b) | _ => eval en fb end
   | EStrip a => do v <- eval en a; match v with VStr b => Val (VStr (strip b)) | _ => OutOfModel end
   | ELower a => do v <- eval en a; match v with VStr b => Val (VStr (lower b)) | _ => OutOfModel end
@@ -224,8 +246,28 @@ Definition bat_fs (bf : batfiles) (ac0 ac : fres) (p : path) : fres :=
     else FAbsent
   end.
 
+(* every argument list of multi_bcat occurring in a program *)
+Fixpoint multis_e (e : expr) : list (list path) :=
+  match e with
+  | EMulti ps => [ps]
+  | ECat _ a | EStrip a | ELower a | EIntOf a | EAbs a | EInSet a _ | EIsNone _ a => multis_e a
+  | EMul a b | EDiv a b | EEq a b | ELt a b | EAnd a b => multis_e a ++ multis_e b
+  | ESbattery a b c => multis_e a ++ multis_e b ++ multis_e c
+  | _ => []
+  end.
+Fixpoint multis_s (s : stmt) : list (list path) :=
+  let fix go (l : list stmt) : list (list path) :=
+    match l with [] => [] | s :: r => multis_s s ++ go r end in
+  match s with
+  | SAssign _ e | SReturn e => multis_e e
+  | SIf c th el => multis_e c ++ go th ++ go el
+  | STry b _ h => multis_s b ++ go h
+  end.
+Definition mk_tbl (m : multifn) (fs : path -> fres) (body : list stmt) : list (list path * outcome (option mval)) :=
+  map (fun ps => (ps, run_multi m (map fs ps))) (flat_map multis_s body).
+
 Definition run_body (m : multifn) (body : list stmt) (bf : batfiles) (ac0 ac : fres) : outcome (option battery) :=
-  do c <- exec_block (run_multi m) (bat_fs bf ac0 ac) body [];
+  do c <- exec_block (mk_tbl m (bat_fs bf ac0 ac) body) (bat_fs bf ac0 ac) body [];
   match c with
   | CRet v => to_battery v
   | CNext _ => Val None                    (* falling off the end returns None *)
